@@ -196,6 +196,18 @@ func c02GenAnswer(rng *rand.Rand, qname string, qtype uint16) (rrs []dns.RR) {
 			na, n6 = 0, 0
 		}
 	}
+	if rng.Intn(12) == 0 {
+		// A long record set (a large round-robin pool): 30-70 addresses that
+		// no rule names, before whatever follows.
+		for i, n := 0, 30+rng.Intn(41); i < n; i++ {
+			if qtype == dns.TypeAAAA {
+				rrs = append(rrs, &dns.AAAA{Hdr: hdr(owner, dns.TypeAAAA), AAAA: net.ParseIP(fmt.Sprintf("2001:db8:f111::%x", i+1))})
+			} else {
+				rrs = append(rrs, &dns.A{Hdr: hdr(owner, dns.TypeA), A: net.IPv4(198, 51, 100, byte(i+1)).To4()})
+			}
+		}
+		na, n6 = 1+rng.Intn(3), rng.Intn(2)
+	}
 	for i := 0; i < na; i++ {
 		rrs = append(rrs, &dns.A{Hdr: hdr(owner, dns.TypeA), A: net.ParseIP(c02V4[rng.Intn(len(c02V4))]).To4()})
 	}
@@ -453,6 +465,14 @@ func c02RunSet(rep *verifkit.Report, rng *rand.Rand, idx, confsPerSet, queriesPe
 func c02One(rep *verifkit.Report, vs *vkServer, env *c01Env, texts []string, qname string, qtype uint16,
 	src string, tcp bool, ans []dns.RR, sample bool, repeat bool) {
 	conf := env.conf
+	if len(ans) > 20 {
+		// (Too long for a UDP reply without EDNS.)
+		tcp = true
+		rep.Class("upstream_answers_with_more_than_20_records")
+		if len(ans) > 32 {
+			rep.Class("upstream_answers_with_more_than_32_records")
+		}
+	}
 	// Mostly NOERROR; NXDOMAIN with a non-empty answer section models a
 	// dangling alias (CNAME chain whose end does not exist).
 	upRcode := env.upRcode
